@@ -26,6 +26,8 @@
 (*   userT  "none": the parser injects t = k                                             *)
 (*          "endo": t = t_minus_1 + 1.0 and t_minus_1 = t(k-1)                           *)
 (*          "exo" : t = [0.0, 1.0, ...] in the exogenous section                         *)
+(*          "endok": t = 0.25*k + 2000.0  (a user time axis written with the step index) *)
+(*   uk     + 0.25*k in the last equation (an ordinary equation reads the step index k)  *)
 (*   useT   + 0.25*t in the last equation                                                *)
 (*   tol    0: no Err_Tolerance line (parser default 1e-8) | 4: Err_Tolerance = 1e-4     *)
 (*          | 100: Err_Tolerance = 1.0 | 200: Err_Tolerance = 2.0  (used with cst = 3)    *)
@@ -96,13 +98,15 @@ EqReads(o, i) ==
     \o (IF i = 1 /\ o.cst = 1 THEN ConstSpellingReads[o.fn] ELSE << >>)
     \o Opt(i = 1 /\ o.cst = 2, << ParamName(o) >>)
     \o Opt(i = o.n /\ o.useT, << "t" >> \o TimeWrapReads[o.tw + 1])
+    \o Opt(i = o.n /\ o.uk, << "k" >>)
 
 MkBlock(o) ==
     o @@
     [ endo   |-> [ i \in 1..o.n |-> [name |-> VarName(o, i), reads |-> EqReads(o, i)] ]
                  \o Opt(o.al, << [name |-> "INC", reads |-> << Last(o) >>] >>)
                  \o Opt(o.cst = 2, << [name |-> ParamName(o), reads |-> << >>] >>)
-                 \o Opt(o.userT = "endo", << [name |-> "t", reads |-> << "t_minus_1" >>] >>),
+                 \o Opt(o.userT = "endo", << [name |-> "t", reads |-> << "t_minus_1" >>] >>)
+                 \o Opt(o.userT = "endok", << [name |-> "t", reads |-> << "k" >>] >>),
       lagged |-> LET l1 == [name |-> LagName(o), of |-> Last(o)]
                      l2 == [name |-> Lag2Name(o), of |-> LagName(o)]
                      lb == [name |-> LagBName(o), of |-> LagName(o)]
@@ -147,7 +151,7 @@ BaseMats == { << << 0, 1 >>, << 2, 0 >> >>,
 OptsOverN(M, MT, Tols, Lags, Nms) ==
     { [n |-> Len(A), A |-> A, lag |-> l, ic |-> c, exo |-> e, cst |-> s, userT |-> u, useT |-> w,
        tol |-> tl, maxTime |-> mt, nm |-> nm, fn |-> IF s = 1 THEN 1 ELSE 0, tw |-> 0, red |-> FALSE,
-       al |-> FALSE, ps |-> 0] :
+       al |-> FALSE, ps |-> 0, uk |-> FALSE] :
       A \in M, l \in Lags, c \in BOOLEAN, e \in 0..2, s \in 0..2, u \in {"none", "endo", "exo"},
       w \in BOOLEAN, tl \in Tols, mt \in MT, nm \in Nms }
 OptsOver(M, MT, Tols) == OptsOverN(M, MT, Tols, 0..2, {0})
@@ -173,7 +177,7 @@ OwnNameProfiles ==
       [lag |-> 0, ic |-> FALSE, exo |-> 0, cst |-> 0, userT |-> "endo", useT |-> FALSE, tol |-> 0, nm |-> 3] }
 ProfilesOf(P, M, MT) ==
     { [n |-> Len(A), A |-> A, maxTime |-> mt] @@ pr
-      @@ [fn |-> IF pr.cst = 1 THEN 1 ELSE 0, tw |-> 0, red |-> FALSE, al |-> FALSE, ps |-> 0] :
+      @@ [fn |-> IF pr.cst = 1 THEN 1 ELSE 0, tw |-> 0, red |-> FALSE, al |-> FALSE, ps |-> 0, uk |-> FALSE] :
       A \in M, pr \in P, mt \in MT }
 (* math functions and constants, builtins: every constant spelling with / without the exogenous list *)
 (* expression that uses math names, injected and user-defined time axis; every time-trend wrapper     *)
@@ -210,6 +214,16 @@ ParamProfiles ==
        red |-> r, ps |-> q] :
       l \in {0, 1}, c \in BOOLEAN, u \in {"none", "endo"}, r \in BOOLEAN, q \in 1..NumParamSpellings }
 ParamMats == { << << 0, 1 >>, << 2, 0 >> >>, << << 0, 1, 1 >>, << 0, 0, 0 >>, << 1, 1, 0 >> >> }
+(* the step index k read by ordinary equations and by a user-defined time equation, under every *)
+(* kind of time axis (the module must bind k whenever some equation reads it)                    *)
+KProfiles ==
+    { [lag |-> l, ic |-> FALSE, exo |-> x, cst |-> 0, userT |-> u, useT |-> w, tol |-> 0, nm |-> 0,
+       red |-> r, uk |-> q] :
+      l \in {0, 1}, x \in {0, 1}, w \in BOOLEAN, r \in BOOLEAN,
+      u \in {"none", "endo", "exo", "endok"}, q \in BOOLEAN } \ { pr \in
+    { [lag |-> l, ic |-> FALSE, exo |-> x, cst |-> 0, userT |-> u, useT |-> w, tol |-> 0, nm |-> 0,
+       red |-> r, uk |-> FALSE] :
+      l \in {0, 1}, x \in {0, 1}, w \in BOOLEAN, r \in BOOLEAN, u \in {"none", "endo", "exo"} } : TRUE }
 Base2 == { << << 0, 1 >>, << 2, 0 >> >> }
 OwnNameMats == Mats1 \cup Base2 \cup { << << 0, 1, 1 >>, << 1, 0, 1 >>, << 1, 1, 0 >> >> }
 
@@ -233,13 +247,16 @@ BlocksQuick(mt) ==
     \cup { MkBlock(o) : o \in ProfilesOf(RedProfiles, RedMats, {mt}) }
     \cup { MkBlock(o) : o \in ProfilesOf(TolProfiles, Mats1 \cup Base2, {mt}) }
     \cup { MkBlock(o) : o \in ProfilesOf(ParamProfiles, ParamMats, {mt}) }
+    \cup { MkBlock(o) : o \in ProfilesOf(KProfiles, Mats1 \cup Base2, {mt}) }
 
-(* thorough: every option combination (lags 0-2) on every 1x1 / 2x2 / designed 3x3 matrix, and the  *)
+(* thorough: every option combination (lags 0-2) on every 1x1 / 2x2 / designed 3x3 matrix (the      *)
+(* non-default tolerance on the 1x1, base and designed 3x3 matrices only), and the                  *)
 (* chained lag with the default tolerance; the colliding local names with every option on the 1x1   *)
 (* and base matrices; a longer and a one-period horizon on the base matrices; the mid-sized 3x3     *)
 (* family under the profiles; the own-name blocks                                                   *)
 BlocksThorough(mt) ==
-    { MkBlock(o) : o \in OptsOverN(Mats1 \cup Mats2 \cup Mats3Few, {mt}, {0, 4}, 0..2, {0}) }
+    { MkBlock(o) : o \in OptsOverN(Mats1 \cup Mats2 \cup Mats3Few, {mt}, {0}, 0..2, {0}) }
+    \cup { MkBlock(o) : o \in OptsOverN(Mats1 \cup BaseMats \cup Mats3Few, {mt}, {4}, 0..2, {0}) }
     \cup { MkBlock(o) : o \in OptsOverN(Mats1 \cup Mats2 \cup Mats3Few, {mt}, {0}, {3}, {0}) }
     \cup { MkBlock(o) : o \in OptsOverN(Mats1 \cup BaseMats, {mt, 6}, {0}, 4..6, {0}) }
     \cup { MkBlock(o) : o \in OptsOverN(Mats1 \cup BaseMats, {mt}, {0}, 0..3, {1}) }
@@ -250,6 +267,7 @@ BlocksThorough(mt) ==
     \cup { MkBlock(o) : o \in ProfilesOf(RedProfiles, Mats1 \cup Mats2 \cup Mats3Few, {mt, 6}) }
     \cup { MkBlock(o) : o \in ProfilesOf(TolProfiles, Mats1 \cup BaseMats, {mt, 6}) }
     \cup { MkBlock(o) : o \in ProfilesOf(ParamProfiles, Mats1 \cup ParamMats \cup Mats3Few, {mt, 6}) }
+    \cup { MkBlock(o) : o \in ProfilesOf(KProfiles, Mats1 \cup BaseMats \cup Mats3Few, {mt, 6}) }
 
 (* a handful of blocks for the as-found counterexamples *)
 BlocksTiny(mt) ==
@@ -257,6 +275,7 @@ BlocksTiny(mt) ==
     \cup { MkBlock(o) : o \in ProfilesOf(OwnNameProfiles, Base2, {mt}) }
     \cup { MkBlock(o) : o \in ProfilesOf({ pr \in MathProfiles : pr.fn \in {0, 2, 10} }, Base2, {mt}) }
     \cup { MkBlock(o) : o \in ProfilesOf({ pr \in RedProfiles : pr.lag = 1 }, Base2, {mt}) }
+    \cup { MkBlock(o) : o \in ProfilesOf({ pr \in KProfiles : pr.lag = 1 /\ pr.exo = 1 }, Base2, {mt}) }
 
 MC_Blocks == CASE Tier = "quick"    -> BlocksQuick(3)
                [] Tier = "thorough" -> BlocksThorough(3)
